@@ -109,6 +109,16 @@ def run(ctx, chk):
             paths, _ = an.analyse(cfg, sb)
             r = [p for p in paths if p.end == "return"]
             ok = len(r) == 1 and not r[0].guards and pipes.map_collect_of(r[0].ret, "std::string::String", "codec::Codec::to_char") == P(1)
+            if not ok and len(r) == 1 and not r[0].guards:
+                # the same characters pushed into a pre-sized String: String::with_capacity(_) (or new()) then one extend(map(iter(content), to_char))
+                base, ids = an.peel_posts(r[0].raw.ret)
+                nb = an.norm_of(r[0])(base)
+                evs = [x for x in r[0].calls if x[3].idx in ids]
+                if an.is_call(nb, re.compile(r"^std::string::String::(with_capacity|new)$")) and len(evs) == 1 and \
+                        re.search(r"^<std::string::String as std::iter::Extend<char>>::extend::<", evs[0][0]):
+                    src = evs[0][1][1]
+                    fake = ("call", "<X as std::iter::Iterator>::collect::<std::string::String>", (src,), None)
+                    ok = pipes.map_collect_of(fake, "std::string::String", "codec::Codec::to_char") == P(1)
             chk.ob("S-display", "String::from(&SeqSlice)", ok, "must be content.iter().map(to_char).collect::<String>(); got " + (show(r[0].ret)[:200] if r else "?"), sb["span"],
                    sample="Collect<String>(Map(Iter(content), to_char))")
             str_from_slice = "CONV<&seq::slice::SeqSlice<A> -> std::string::String>" if ok else None
